@@ -226,6 +226,10 @@ def r7_3(ctx):
             # edges
             i = body.index(lp)
             before, after = body[i - 1], body[i + 1]
+            # the loop form builds the row in one place: a return anywhere else hands out a row that was not built this way
+            early = [r_ for r_ in walk_local(f.node) if isinstance(r_, ast.Return) and r_ is not body[-1]]
+            for r_ in early:
+                ctx.violation(f.fq, short(r_), f"{f.module.relpath}:{r_.lineno}", f"Box.{name} returns `{short(r_.value) if r_.value is not None else None}` before the row is assembled: this row bypasses the edge handling (and the per-column loop), so it is not as wide as the other lines of the table whenever edges are drawn")
             if name == "get_row":
                 ok = ok and isinstance(before, ast.If) and norm(before.test) == "edge" and isinstance(after, ast.If) and norm(after.test) == "edge" and norm(before.body[0]).startswith("append(") and norm(after.body[0]).startswith("append(")
             else:
